@@ -68,6 +68,8 @@ def tr(node, env):
             if e == 0.5:
                 return "(sqrt %s)" % base
             return "(Rpower %s %s)" % (base, tr(node.right, env))
+        if isinstance(node.op, ast.BitOr):      # `|` of two 0/1-valued comparisons
+            return "(ror %s %s)" % (tr(node.left, env), tr(node.right, env))
         op = {ast.Add: "+", ast.Sub: "-", ast.Mult: "*", ast.Div: "/"}.get(type(node.op))
         if op is None:
             raise Untranslatable("operator %s" % type(node.op).__name__)
